@@ -598,6 +598,8 @@ func CosimWorker(pm *Params) (*Stats, []*Failure) {
 	defer func() { cli.close(); cli = nil }()
 	for i := pm.From; i < pm.Count; i += pm.Stride {
 		runSeed := rng.RunSeed(pm.VerifSeed, prop, i)
+		beginRun(pm, i)
+		comp.SchedSeed = rng.Sub(runSeed, "sched")
 		gr := rng.New(rng.Sub(runSeed, "gen"))
 		if prop == "C05" && i%4 == 3 {
 			// every fourth C05 run: a full-feature file (poryswitch, const, format, raw, ...)
